@@ -507,6 +507,11 @@ func (pconf *Path) validate(
 			pconf.RTSPAnyPort = *pconf.SourceAnyPortEnable
 		}
 
+		// the RTSP source reads both ends of the range
+		if len(pconf.RTSPUDPSourcePortRange) != 2 {
+			return fmt.Errorf("invalid 'rtspUDPSourcePortRange' value: it must contain the first and the last port of the range")
+		}
+
 	case strings.HasPrefix(pconf.Source, "rtmp://") ||
 		strings.HasPrefix(pconf.Source, "rtmps://"):
 		_, err := validateURL(pconf.Source)
